@@ -6,7 +6,8 @@ these keywords (TRUSTED; validated against `jsonschema` on every run by vlib/pro
 Core subset (this file): scalar types with bounds (nullable through a type list), enum / const of
 scalars, arrays with a single `items` schema and minItems / maxItems, objects with typed
 properties + `required` + boolean `additionalProperties`, objects that are pure maps
-(`additionalProperties: <schema>`, no properties), local `$ref` through a definitions environment,
+(`additionalProperties: <schema>`, no properties), the same behind a nullable type list
+(`"type": ["object", "null"]`: `ndict`), local `$ref` through a definitions environment,
 `anyOf` / `oneOf`, `allOf` of `$ref` parts with one inline object and an allOf-level `required`, and
 OpenAPI discriminated unions (`disc`: oneOf/anyOf of `$ref`s + `discriminator` with a written or implicit
 mapping; validity = the union as JSON Schema reads it AND the tag selecting a valid alternative). Draft-4 boolean exclusive bounds are normalised beforehand
@@ -48,6 +49,9 @@ inductive Schema where
   | array (items : Schema) (minItems maxItems : Option Nat)
   | object (props : List (List Char × Schema)) (required : List (List Char)) (addl : Addl)
   | dict (value : Schema)
+  /-- `{"type": ["object", "null"]}` (either order) WITHOUT `properties`: a free-form object (`value = any`) or a
+  map object (`additionalProperties: value`) that may also be null -/
+  | ndict (value : Schema)
   | ref (name : List Char)
   | anyOf (alts : List Schema)
   | oneOf (alts : List Schema)
@@ -135,6 +139,11 @@ def validJ (re : Regex) : Nat → Defs → Schema → Json → Bool
       match v with
       | .obj kvs => kvs.all (fun kv => validJ re f defs value kv.2)
       | _ => false
+    | .ndict value =>
+      match v with
+      | .null => true
+      | .obj kvs => kvs.all (fun kv => validJ re f defs value kv.2)
+      | _ => false
     | .ref n =>
       match defs.lookup n with
       | some t => validJ re f defs t v
@@ -215,6 +224,7 @@ def Schema.inSubset : Schema → Bool
     Schema.propsInSubset props && namesNodup (props.map (·.1)) &&
       req.all (fun k => (props.map (·.1)).contains k)
   | .dict value => value.inSubset
+  | .ndict value => value.inSubset
   | .ref _ => true
   | .anyOf alts => Schema.allInSubset alts
   | .oneOf alts => Schema.allInSubset alts
@@ -269,6 +279,11 @@ def validJN (re : Regex) : Nat → Defs → Schema → Json → Bool
       match v with
       | .obj kvs => kvs.all (fun kv => validJN re f defs value kv.2)
       | _ => false
+    | .ndict value =>
+      match v with
+      | .null => true
+      | .obj kvs => kvs.all (fun kv => validJN re f defs value kv.2)
+      | _ => false
     | .ref n =>
       match defs.lookup n with
       | some t => validJN re f defs t v
@@ -316,6 +331,8 @@ def Schema.oneOfFree : Schema → Bool
   | .oneOf _ => false
   | .allOf _ _ _ _ => false
   | .disc _ _ _ _ => false
+  -- the value schema of a nullable map object does not reach the IR (`Optional[Dict[str, Any]]`): outside the converse
+  | .ndict _ => false
   | _ => true
 def Schema.propsOneOfFree : List (List Char × Schema) → Bool
   | [] => true
